@@ -16,6 +16,7 @@ import Daac.Props.C02
 import Daac.Props.C03
 import Daac.Props.C04
 import Daac.Props.C05
+import Daac.Props.C12
 namespace Daac.Props.Tie
 open Daac Daac.Tie
 variable {V : Type} [DecidableEq V]
@@ -68,6 +69,52 @@ theorem kind_mismatch_panics_bytewise (da : DA V) (hv : da.variant = .bytewise) 
   · intro hk
     rw [B.lmAll_eq da hv]
     simp [hk]
+
+/-- `Match::start()`, `end()`, `value()` as translated from src/lib.rs are the three components of
+the model's match (`start = end - length`). -/
+theorem match_accessors (m : Gen.Rs.Match V) :
+    Gen.B.Match.start m = (Gen.Rs.Match.toModel m).start ∧
+    Gen.B.Match.end_ m = (Gen.Rs.Match.toModel m).stop ∧
+    Gen.B.Match.value m = (Gen.Rs.Match.toModel m).value := ⟨rfl, rfl, rfl⟩
+
+/-! ### C12 for the translated `_from_iter` entry points: lazy, single pass (arbitrary tables) -/
+
+private theorem some_ok_of_eq {α : Type} {x : Option α} {c : Prop} [Decidable c] {m y : α}
+    (h1 : x = if c then some m else none) (h2 : x = some y) : m = y := by
+  rw [h1] at h2
+  split at h2
+  · exact Option.some.inj h2
+  · cases h2
+
+theorem find_from_iter_lazy_bytewise (da : DA V) (hv : da.variant = .bytewise) (h : List Nat)
+    (l : List (Match V × Nat)) (fin : Nat) (hr : B.findAllFromIter da h = some (.ok (l, fin))) :
+    Lazy l ∧ fin = h.length ∧ (l.map (·.2)).Pairwise (· < ·) :=
+  C12.find_lazy da h l fin (some_ok_of_eq (B.findAllFromIter_eq da hv h) hr)
+
+theorem nosuffix_from_iter_lazy_bytewise (da : DA V) (hv : da.variant = .bytewise) (h : List Nat)
+    (l : List (Match V × Nat)) (fin : Nat) (hr : B.noSufAllFromIter da h = some (.ok (l, fin))) :
+    Lazy l ∧ fin = h.length ∧ (l.map (·.2)).Pairwise (· < ·) :=
+  C12.nosuffix_lazy da h l fin (some_ok_of_eq (B.noSufAllFromIter_eq da hv h) hr)
+
+theorem overlapping_from_iter_lazy_bytewise (da : DA V) (hv : da.variant = .bytewise) (h : List Nat)
+    (l : List (Match V × Nat)) (fin : Nat) (hr : B.ovAllFromIter da h = some (.ok (l, fin))) :
+    Lazy l ∧ fin = h.length ∧ (l.map (·.2)).Pairwise (· ≤ ·) :=
+  C12.overlapping_lazy da h l fin (some_ok_of_eq (B.ovAllFromIter_eq da hv h) hr)
+
+theorem find_from_iter_lazy_charwise (da : DA V) (hv : da.variant = .charwise) (h : List Nat)
+    (l : List (Match V × Nat)) (fin : Nat) (hr : C.findAllFromIter da h = some (.ok (l, fin))) :
+    Lazy l ∧ fin = h.length ∧ (l.map (·.2)).Pairwise (· < ·) :=
+  C12.find_lazy da h l fin (some_ok_of_eq (C.findAllFromIter_eq da hv h) hr)
+
+theorem nosuffix_from_iter_lazy_charwise (da : DA V) (hv : da.variant = .charwise) (h : List Nat)
+    (l : List (Match V × Nat)) (fin : Nat) (hr : C.noSufAllFromIter da h = some (.ok (l, fin))) :
+    Lazy l ∧ fin = h.length ∧ (l.map (·.2)).Pairwise (· < ·) :=
+  C12.nosuffix_lazy da h l fin (some_ok_of_eq (C.noSufAllFromIter_eq da hv h) hr)
+
+theorem overlapping_from_iter_lazy_charwise (da : DA V) (hv : da.variant = .charwise) (h : List Nat)
+    (l : List (Match V × Nat)) (fin : Nat) (hr : C.ovAllFromIter da h = some (.ok (l, fin))) :
+    Lazy l ∧ fin = h.length ∧ (l.map (·.2)).Pairwise (· ≤ ·) :=
+  C12.overlapping_lazy da h l fin (some_ok_of_eq (C.ovAllFromIter_eq da hv h) hr)
 
 /-! ### End to end: model-built table + translated search code = specification -/
 
